@@ -16,7 +16,8 @@ def harnesses(tier, seed):
     gr = schemas.grammar(tier, seed)
     for s in gr:
         variants = ["codec", "field"]
-        if s.name.startswith(("L_", "X_")) or tier != "quick":
+        d2 = s.name.startswith("C_") and s.name.rsplit("_", 1)[-1] in schemas.D2_LEAVES
+        if s.name.startswith(("L_", "X_")) or (tier != "quick" and d2):
             variants += ["orjson", "msgpack", "toml"]
         for variant in variants:
             if variant == "codec" and "fieldonly" in s.tags:
